@@ -67,3 +67,5 @@ func init() {
 	prop("C17", "C17-R1", "C17-R2")
 	prop("C19", "C19-R1", "C13-R1", "C16-R3", "C12-R4", "C17-R2")
 }
+
+func init() { prop("C19", "C19-R2", "C19-R3") }
